@@ -25,9 +25,9 @@ theorem FormatTree_tie (n : Int) (h : Bytes) :
   FormatTree_eq n h
 
 example : Generated.TlogNote.FormatTree TlogNote.hashString ({ N := -7, Hash := [1, 2, 3] } : GTree) =
-      B "go.sum database tree\n-7\nAQID\n" ∧
-    TlogNote.formatTree { n := -7, hash := [1, 2, 3] } = B "go.sum database tree\n-7\nAQID\n" := by
-  exact ⟨rfl, rfl⟩
+      (B "go.sum database tree\n-7\nAQID\n") ∧
+    TlogNote.formatTree { n := -7, hash := [1, 2, 3] } = (B "go.sum database tree\n-7\nAQID\n") := by
+  decide +kernel
 
 /-- `ParseTree(text)`, every byte string; `ptOut none = (Tree{}, errMalformedTree)` -/
 theorem ParseTree_tie (text : Bytes) :
@@ -39,12 +39,12 @@ example : Generated.TlogNote.ParseTree b64decI id
       .ok (({ N := 5, Hash := List.replicate 32 0 } : GTree), none) ∧
     ptOut (TlogNote.parseTree (B "go.sum database tree\n5\nAAAAAAAAAAAAAAAAAAAAAAAAAAAAAAAAAAAAAAAAAAA=\nmore")) =
       (({ N := 5, Hash := List.replicate 32 0 } : GTree), none) := by
-  exact ⟨rfl, rfl⟩
+  decide +kernel
 
 example : Generated.TlogNote.ParseTree b64decI id (B "go.sum database tree\n05\nAAAA\n") =
       .ok ((default : GTree), some "errMalformedTree") ∧
     ptOut (TlogNote.parseTree (B "go.sum database tree\n05\nAAAA\n")) = ((default : GTree), some "errMalformedTree") := by
-  exact ⟨rfl, rfl⟩
+  decide +kernel
 
 /-- `isValidRecordText(text)`, every byte string; fuel: one unit per rune plus one -/
 theorem isValidRecordText_tie (text : Bytes) (fuel : Nat) (hf : text.length + 1 ≤ fuel) :
@@ -52,28 +52,28 @@ theorem isValidRecordText_tie (text : Bytes) (fuel : Nat) (hf : text.length + 1 
   isValidRecordText_eq text fuel hf
 
 example : Generated.TlogNote.isValidRecordText 20 (B "a é\nb\n") = .ok true ∧
-    TlogNote.isValidRecordText (B "a é\nb\n") = true := ⟨rfl, rfl⟩
+    TlogNote.isValidRecordText (B "a é\nb\n") = true := by decide +kernel
 
 example : Generated.TlogNote.isValidRecordText 20 (B "a\n\nb\n") = .ok false ∧
-    TlogNote.isValidRecordText (B "a\n\nb\n") = false := ⟨rfl, rfl⟩
+    TlogNote.isValidRecordText (B "a\n\nb\n") = false := by decide +kernel
 
 /-- `FormatRecord(id, text)`, every id and text; `frOut none = (nil, errMalformedRecord)` -/
 theorem FormatRecord_tie (id : Int) (text : Bytes) (fuel : Nat) (hf : text.length + 1 ≤ fuel) :
     Generated.TlogNote.FormatRecord fuel id text = .ok (frOut (TlogNote.formatRecord id text)) :=
   FormatRecord_eq id text fuel hf
 
-example : Generated.TlogNote.FormatRecord 20 12 (B "x y\n") = .ok (B "12\nx y\n\n", none) ∧
-    frOut (TlogNote.formatRecord 12 (B "x y\n")) = (B "12\nx y\n\n", none) := ⟨rfl, rfl⟩
+example : Generated.TlogNote.FormatRecord 20 12 (B "x y\n") = .ok ((B "12\nx y\n\n"), none) ∧
+    frOut (TlogNote.formatRecord 12 (B "x y\n")) = ((B "12\nx y\n\n"), none) := by decide +kernel
 
 /-- `ParseRecord(msg)`, every byte string; `prOut none = (0, nil, nil, errMalformedRecord)` -/
 theorem ParseRecord_tie (msg : Bytes) (fuel : Nat) (hf : msg.length + 1 ≤ fuel) :
     Generated.TlogNote.ParseRecord fuel msg = .ok (prOut (TlogNote.parseRecord msg)) :=
   ParseRecord_eq msg fuel hf
 
-example : Generated.TlogNote.ParseRecord 20 (B "12\nx y\n\nrest") = .ok (12, B "x y\n", B "rest", none) ∧
-    prOut (TlogNote.parseRecord (B "12\nx y\n\nrest")) = (12, B "x y\n", B "rest", none) := ⟨rfl, rfl⟩
+example : Generated.TlogNote.ParseRecord 20 (B "12\nx y\n\nrest") = .ok (12, (B "x y\n"), (B "rest"), none) ∧
+    prOut (TlogNote.parseRecord (B "12\nx y\n\nrest")) = (12, (B "x y\n"), (B "rest"), none) := by decide +kernel
 
 example : Generated.TlogNote.ParseRecord 20 (B "12\nx y\n") = .ok (0, [], [], some "errMalformedRecord") ∧
-    prOut (TlogNote.parseRecord (B "12\nx y\n")) = (0, [], [], some "errMalformedRecord") := ⟨rfl, rfl⟩
+    prOut (TlogNote.parseRecord (B "12\nx y\n")) = (0, [], [], some "errMalformedRecord") := by decide +kernel
 
 end ModVerif.Tie.FnTlogNote
